@@ -35,9 +35,11 @@ const (
 	fWrapSafe
 	fSafeInPlain
 	fPanic
+	fPlainWrapsCanceled // a plain error that wraps context.Canceled (the request context is live)
+	fSafeWrapsCanceled  // WrapAsSafeError around context.Canceled
 )
 
-var kindNames = []string{"plain", "SafeError", "ClientError", "WrapAsSafeError", "safe-wrapped-in-plain", "panic"}
+var kindNames = []string{"plain", "SafeError", "ClientError", "WrapAsSafeError", "safe-wrapped-in-plain", "panic", "plain-wrapping-context.Canceled", "WrapAsSafeError(context.Canceled)"}
 
 type failure struct {
 	typ, field string
@@ -55,7 +57,7 @@ func (f *failure) matches(typ string, id int64, field string) bool {
 // safeMessage is the exact text a websocket client may see ("" = generic only).
 func (f *failure) safeMessage() string {
 	switch f.kind {
-	case fSafe, fClient, fWrapSafe:
+	case fSafe, fClient, fWrapSafe, fSafeWrapsCanceled:
 		return f.token
 	}
 	return ""
@@ -94,7 +96,7 @@ func failHook(ctx context.Context, typ string, id int64, field string, inBatch b
 }
 
 func newFailure(r *rand.Rand, n int, typ, field string, ids map[int64]bool) *failure {
-	f := &failure{typ: typ, field: field, ids: ids, kind: failKind(r.Intn(6))}
+	f := &failure{typ: typ, field: field, ids: ids, kind: failKind(r.Intn(8))}
 	f.token = fmt.Sprintf("tok%dv%d", n, r.Int63())
 	f.secret = fmt.Sprintf("sec%dv%d", n, r.Int63())
 	switch f.kind {
@@ -108,6 +110,10 @@ func newFailure(r *rand.Rand, n int, typ, field string, ids map[int64]bool) *fai
 		f.err = graphql.WrapAsSafeError(errors.New(f.secret), "%s", f.token)
 	case fSafeInPlain:
 		f.err = fmt.Errorf("%s: %w", f.token+" "+f.secret, graphql.NewSafeError("hidden "+f.secret))
+	case fPlainWrapsCanceled:
+		f.err = fmt.Errorf("%s: %w", f.token+" "+f.secret, context.Canceled)
+	case fSafeWrapsCanceled:
+		f.err = graphql.WrapAsSafeError(context.Canceled, "%s", f.token)
 	}
 	return f
 }
@@ -233,7 +239,7 @@ func (sc *scenario) checkError(err error, opName string) string {
 	text := err.Error()
 	for _, f := range sc.onPath {
 		switch f.kind {
-		case fSafe, fClient, fWrapSafe:
+		case fSafe, fClient, fWrapSafe, fSafeWrapsCanceled:
 			if _, ok := err.(graphql.SanitizedError); ok && text == f.token {
 				return ""
 			}
